@@ -1,4 +1,5 @@
 import HgVerif.Model.NestShape
+import HgVerif.Model.Capture
 import HgVerif.Driver.Proto
 /-! Model driver for the structured-boundary stream of C09: same line protocol as `harness/drv_nestshape.cpp`.
     The body vocabulary (rules, gate, timer) is interpreted here into the per-cycle writes of the body; the forwarding
@@ -19,7 +20,8 @@ structure Def where
   tOff : Nat
   tPer : Nat
   rules : List Rule
-  chans : Nat
+  chans : Nat           -- history columns (channels of the outer writers)
+  bch : Nat             -- input channels of the body
 
 structure DS where
   d : Option Def := none
@@ -37,11 +39,17 @@ def leavesOf : String → Nat
   | "ts" => 1 | "b2" => 2 | "b3" => 3 | "b4" => 4 | "l2" => 2 | "l3" => 3 | "l4" => 4 | "bl" => 3 | "lb" => 4 | _ => 0
 
 def chansOf : String → Nat
-  | "s1" => 1 | "s2" => 2 | "s3" => 3 | "ab" => 2 | "al" => 2 | "bs" => 3 | _ => 0
+  | "s1" => 1 | "s2" => 2 | "s3" => 3 | "ab" => 2 | "al" => 2 | "bs" => 3
+  | "cf" => 2 | "cr" => 2 | "cl" => 2 | "cs" => 1 | "cn" => 2 | "xf" => 2 | "sc" => 3 | _ => 0
+
+/-- the body's inputs are captured outer ports (no declared argument) -/
+def captured (args : String) : Bool := ["cf", "cr", "cl", "cs", "cn", "xf"].contains args
 
 def pairs : List String :=
   ["ts:s1", "ts:ab", "b2:s2", "b2:ab", "b2:bs", "b3:s3", "b3:s1", "b4:s2", "b4:al", "l2:s1", "l2:al",
-   "l3:s2", "l3:bs", "l4:s1", "l4:s3", "bl:s2", "bl:ab", "lb:s2", "lb:al"]
+   "l3:s2", "l3:bs", "l4:s1", "l4:s3", "bl:s2", "bl:ab", "lb:s2", "lb:al",
+   "ts:cf", "ts:cr", "ts:cl", "ts:cs", "ts:cn", "ts:xf", "b2:cf", "b2:cr", "b2:cl", "b2:cs", "b2:cn", "b2:xf",
+   "l3:cf", "l3:cr", "l3:cl", "l3:cs", "l3:cn", "l3:xf", "b3:sc"]
 
 def chanIdx (c : Char) (chans : Nat) : Option Nat :=
   if c.isDigit && c.toNat - '0'.toNat < 3 && c.toNat - '0'.toNat < chans then some (c.toNat - '0'.toNat) else none
@@ -83,7 +91,7 @@ def parseTimer (s : String) : Option (Char × Nat × Nat) :=
   | _ => none
 
 def passOk (res args : String) : Bool :=
-  (res == "ts" && args.startsWith "s") || (res == "b2" && (args == "ab" || args == "bs")) || (res == "l2" && args == "al")
+  (res == "ts" && (args.startsWith "s" || captured args)) || (res == "b2" && (args == "ab" || args == "bs")) || (res == "l2" && args == "al")
 
 def parseDef (ws : List String) : Option Def :=
   match ws with
@@ -93,14 +101,15 @@ def parseDef (ws : List String) : Option Def :=
     if nl == 0 || ch == 0 || !pairs.contains (res ++ ":" ++ args) then none else
     if !["node", "sink", "proj", "pass", "comp"].contains style then none else
     if style == "pass" && !passOk res args then none else
-    if style == "comp" && !["b2", "b3", "b4", "l2", "l3", "l4"].contains res then none else
+    if style == "comp" && (!["b2", "b3", "b4", "l2", "l3", "l4"].contains res || captured args || args == "sc") then none else
+    let bch := if args == "cs" then 2 else ch
     match parseTimer timer with
     | none => none
     | some (tm, o, p) =>
       if rules.length != nl then none else
-      let rs := rules.map (parseRule ch)
+      let rs := rules.map (parseRule bch)
       if rs.any (·.isNone) then none else
-      some { res := res, args := args, style := style, timer := tm, tOff := o, tPer := p, rules := rs.filterMap id, chans := ch }
+      some { res := res, args := args, style := style, timer := tm, tOff := o, tPer := p, rules := rs.filterMap id, chans := ch, bch := bch }
   | _ => none
 
 def parseRow (chans : Nat) (ws : List String) : Option (List (Option Int)) :=
@@ -110,6 +119,46 @@ def parseRow (chans : Nat) (ws : List String) : Option (List (Option Int)) :=
     | some v => if -999 ≤ v && v ≤ 999 then some (some v) else none
     | none => none
   if r.any (·.isNone) then none else some (r.filterMap id)
+
+/-! captured outer ports: which history column a body input finally reads.  The outer writers are wiring nodes
+    0, 1, ..; a captured port is (node, path); the child input is bound through `HgVerif.Capture.boundThrough` over
+    one capture table per nesting level (the inlined wiring reads the named port directly). -/
+open HgVerif.Capture in
+def capPorts (args : String) : List PortId :=
+  let f (n i : Nat) : PortId := { node := n, path := [i], kind := 0, schema := 1 }
+  match args with
+  | "cf" => [f 0 0, f 0 1]
+  | "xf" => [f 0 0, f 0 1]
+  | "cl" => [f 0 0, f 0 1]
+  | "cr" => [f 0 1, f 0 0]
+  | "cs" => [f 0 0, f 0 0]
+  | "cn" => [f 0 0, f 1 0]
+  | "sc" => [f 1 0, f 1 1]
+  | _ => []
+
+/-- first history column written by outer writer node `n` -/
+def writerBase (args : String) (n : Nat) : Nat :=
+  match args with
+  | "cn" => n
+  | "sc" => n          -- node 0: the declared scalar (column 0), node 1: the bundle writer (columns 1, 2)
+  | _ => 0
+
+open HgVerif.Capture in
+def portColumn (args : String) (p : PortId) : Nat := writerBase args p.node + p.path.headD 0
+
+/-- the row the body sees (one entry per body input) from the row of history columns, at nesting depth `D` -/
+def bodyRow (args : String) (D : Nat) (row : List (Option Int)) : List (Option Int) :=
+  let ports := capPorts args
+  if ports.isEmpty then row else
+  let levels := List.replicate D ports
+  let cols := ports.map fun p =>
+    match HgVerif.Capture.boundThrough levels p with
+    | some q => some (portColumn args q)
+    | none => none
+  let capt := cols.map fun c => match c with
+    | some k => (row[k]?).getD none
+    | none => none
+  if args == "sc" then [(row[0]?).getD none] ++ capt else capt
 
 /-! the body: state and one time step -/
 structure BS where
@@ -124,15 +173,18 @@ def nth {α} (l : List α) (i : Nat) (d : α) : α := (l[i]?).getD d
 /-- (is an engine cycle, writes per leaf) at time `t` with channel ticks `row` -/
 def bodyStep (df : Def) (t : Nat) (row : List (Option Int)) (s : BS) : BS × Bool × List (Option Int) :=
   let nl := df.rules.length
-  let vals := (List.range df.chans).map fun j => match nth row j none with
+  let vals := (List.range df.bch).map fun j => match nth row j none with
     | some v => some v
     | none => nth s.vals j none
   let anyTick := row.any (·.isSome)
   if df.style == "pass" then
-    -- no body: the result is the first argument; its leaves are the argument's channels
-    ({ s with vals := vals }, anyTick, (List.range nl).map fun i => nth row i none) else
+    -- no body: the result is the first argument (its leaves are the argument's channels), or, for a capturing
+    -- sub-graph, the second captured port
+    let base := if captured df.args then 1 else 0
+    ({ s with vals := vals }, anyTick, (List.range nl).map fun i => nth row (base + i) none) else
   let due := s.armed == some t
-  let gate := if df.args.startsWith "s" then (nth vals 0 none).isSome else (nth vals 0 none).isSome || (nth vals 1 none).isSome
+  let gate := if ["ab", "al", "bs"].contains df.args then (nth vals 0 none).isSome || (nth vals 1 none).isSome
+              else (nth vals 0 none).isSome
   let ev := (anyTick || due) && gate
   if !ev then ({ s with vals := vals, armed := if due then none else s.armed }, anyTick || due, List.replicate nl none) else
   let first := !s.evaluated
@@ -182,14 +234,14 @@ def runMode (df : Def) (hist : List (List (Option Int))) (D : Nat) : String := I
   let L := df.rules.length
   let comp := df.style == "comp"
   let pre := df.style == "pass"
-  let mut bs : BS := { vals := List.replicate df.chans none, counts := List.replicate L 0,
+  let mut bs : BS := { vals := List.replicate df.bch none, counts := List.replicate L 0,
                        armed := if df.timer == 's' && df.style != "pass" then some (1 + df.tOff) else none }
   let mut tr : Tree := thaw (snapshot D L (startTree comp D L 1))
   let mut cycs : List String := []
   let mut entries : List String := []
   let mut t := 1
   for row in hist do
-    let (bs', isCyc, writes) := bodyStep df t row bs
+    let (bs', isCyc, writes) := bodyStep df t (bodyRow df.args D row) bs
     bs := bs'
     if isCyc then
       cycs := cycs ++ [toString t]
